@@ -14,7 +14,11 @@ def main():
                                            roots=os.path.join(vlib.VERIF, "data", "roots_surplus.txt"))
     n_s, _ = games.collect_walk(chk, results_s, paths_s)
     n1 += n_s
-    results = results + results_s
+    # one long game with passes, played and taken back: more take-backs in a row than any fixed-size store of snapshots holds
+    results_l, paths_l = games.walk_traces(chk, events=0, files=1 if q else 3, label="walk_long", long=700 if q else 1500)
+    n_l, _ = games.collect_walk(chk, results_l, paths_l)
+    n1 += n_l
+    results = results + results_s + results_l
     st = [r.stats("trace")[0] for r in results]
     files = games.gen_game(chk, "mixed", behaviours=32 if q else 2000, steps=60, max_depth=12, jvms=4 if q else 16)
     for m, p in games.replay_games(chk, files):
